@@ -143,6 +143,7 @@ func (ex *Exec) lockOp(mu string, mode int, acquire bool, pos token.Pos) {
 	if !strings.HasPrefix(mu, "(sub ") {
 		ex.nopanic("nopanic.nil", pos, "(not (= "+mu+" 0))", "mutex pointer is not nil")
 	}
+	ex.useHeld()
 	st := ex.curState
 	held := ex.get(st, "HELD", "(Array Int Int)")
 	cur := sSel(held, mu)
